@@ -193,6 +193,11 @@ def run(prog, rep, tier):
     pattern_method(prog, rep, AN + "sample", ["A"])
     from .common import no_foreign_writes
     no_foreign_writes(rep, prog, AN + "sample")
+    # the noise terms of different variables must be different draws: one (re)seed per call, before the loop
+    from .C13 import rng_rules
+    rng_rules(rep, prog, f, unseeded_live=True)
+    # the constructor (and the ordering routine it calls) must leave the caller's matrix alone: the model copies it *afterwards*
+    no_foreign_writes(rep, prog, AN + "__init__", rule="OWN.ctor")
     rep.exhaustive = True      # the finite tables (pairs / valuations) are enumerated completely
     rep.require_count("CASES", 1)
     rep.require_count("ORDER", 3)
